@@ -15,7 +15,7 @@ from oracles import pairs
 from vlib import cats, gen
 from vlib.core import HELD, VIOLATED, Check, Scratch, result
 
-GEOMS = ["contiguous", "clusters_far", "dense_vs_sparse", "uneven_extent", "pole", "wrap", "antipodal", "single_patch"]
+GEOMS = ["contiguous", "clusters_far", "dense_vs_sparse", "uneven_extent", "pole", "wrap", "antipodal", "single_patch", "fullsky"]
 ZCLASSES = ["lowz", "mid", "highz", "empty_bins", "one_bin", "patch_outside"]
 SCALECLASSES = ["one", "overlap", "many_edges", "weighted"]
 UNITS = ["kpc", "Mpc", "rad", "deg", "arcmin", "arcsec", "kpc/h", "Mpc/h"]
@@ -73,7 +73,15 @@ def build_world(case, rng):
         P = 2 * int(rng.integers(1, 4))
     elif geom == "single_patch":
         P = 1
+    elif geom == "fullsky":
+        # very wide, few patches: radii + scale exceed 180 deg
+        P = int(rng.integers(2, 4))
+        radius = {k: np.deg2rad(rng.uniform(60.0, 89.0)) for k in radius}
+        theta_max = np.deg2rad(rng.uniform(20.0, 100.0))
     centres = cats.layout_centres(rng, P if geom != "antipodal" else P // 2, spacing, where)
+    if geom == "fullsky":
+        c0 = gen.rand_unit(rng, 1)[0]
+        centres = np.array([c0, -c0] + ([gen.rand_unit(rng, 1)[0]] if P == 3 else []))
     if geom == "antipodal":
         centres = np.concatenate([centres, -centres])
     if geom == "uneven_extent":
